@@ -4,13 +4,6 @@ import Pw.C09.Cond
 namespace C09
 open MG C08
 
-/-- `M` is a MAG without undirected edges -/
-structure IsMAG (M : MG) : Prop where
-  noUn : M.un = []
-  noCirc : M.circ = []
-  ancestral : Ancestral M
-  maximal : Maximal M
-
 /-- `P` is the PAG of the MAG `M0`, from the definition: same nodes and adjacencies, and an endpoint
     mark is an arrowhead (tail) iff every MAG Markov equivalent to `M0` has an arrowhead (tail) there -/
 structure IsPagOf (M0 P : MG) : Prop where
